@@ -82,12 +82,33 @@ def _on_line(code, line):
     s.switch(lt, None, None, None, "line", (_short.get(code, "?"), code.co_name, line))
 
 
+def _on_jump(code, src, dst):
+    # backward jumps only: a loop iteration inside one source line (comprehensions, one-line
+    # loops) is a place where CPython checks the eval breaker and may switch threads
+    if dst >= src:
+        return
+    lt = getattr(sched._tls, "lt", None)
+    if lt is None:
+        return
+    s = lt.sched
+    if s is not sched._cur:
+        return
+    if s.phase != "run":
+        if s.phase == "abort":
+            raise sched.Abort()
+        return
+    if lt.atomic:
+        return
+    s.switch(lt, None, None, None, "loop", (_short.get(code, "?"), code.co_name, -dst))
+
+
 def install():
     global _installed
     if _installed:
         return
     _mon.use_tool_id(TOOL, "mc-sched")
     _mon.register_callback(TOOL, _mon.events.LINE, _on_line)
+    _mon.register_callback(TOOL, _mon.events.JUMP, _on_jump)
     _installed = True
 
 
@@ -107,6 +128,6 @@ def set_traced(names):
     for c in _current_codes - want:
         _mon.set_local_events(TOOL, c, 0)
     for c in want - _current_codes:
-        _mon.set_local_events(TOOL, c, _mon.events.LINE)
+        _mon.set_local_events(TOOL, c, _mon.events.LINE | _mon.events.JUMP)
     _current_codes = want
     return len(want)
